@@ -351,3 +351,10 @@ M("C06", "memo-operator-precedence-coarse-key", EXPRF, "def operator_precedence(
 M("C06", "expression-node-value-memo", NODES, '        try:\n            return eval_expression(self.expression, self.resolver)\n        except SymbolNotDefined as e:\n            raise NodeError(f"{e} ({self}) is not defined in the current scope.", self.file_info) from e\n', '        if self._value is None:\n            try:\n                self._value = eval_expression(self.expression, self.resolver)\n            except SymbolNotDefined as e:\n                raise NodeError(f"{e} ({self}) is not defined in the current scope.", self.file_info) from e\n        return self._value\n', "C06.RM", edits=[(NODES, '        self.resolver = resolver\n        self.file_info = file_info\n\n    def get_value(self) -> int:\n', '        self.resolver = resolver\n        self.file_info = file_info\n        self._value: int | None = None\n\n    def get_value(self) -> int:\n'), (NODES, '        try:\n            return eval_expression(self.expression, self.resolver)\n        except SymbolNotDefined as e:\n            raise NodeError(f"{e} ({self}) is not defined in the current scope.", self.file_info) from e\n', '        if self._value is None:\n            try:\n                self._value = eval_expression(self.expression, self.resolver)\n            except SymbolNotDefined as e:\n                raise NodeError(f"{e} ({self}) is not defined in the current scope.", self.file_info) from e\n        return self._value\n')])
 M("C08", "expression-node-value-memo", NODES, '        try:\n            return eval_expression(self.expression, self.resolver)\n        except SymbolNotDefined as e:\n            raise NodeError(f"{e} ({self}) is not defined in the current scope.", self.file_info) from e\n', '        if self._value is None:\n            try:\n                self._value = eval_expression(self.expression, self.resolver)\n            except SymbolNotDefined as e:\n                raise NodeError(f"{e} ({self}) is not defined in the current scope.", self.file_info) from e\n        return self._value\n', "C08.RM", edits=[(NODES, '        self.resolver = resolver\n        self.file_info = file_info\n\n    def get_value(self) -> int:\n', '        self.resolver = resolver\n        self.file_info = file_info\n        self._value: int | None = None\n\n    def get_value(self) -> int:\n'), (NODES, '        try:\n            return eval_expression(self.expression, self.resolver)\n        except SymbolNotDefined as e:\n            raise NodeError(f"{e} ({self}) is not defined in the current scope.", self.file_info) from e\n', '        if self._value is None:\n            try:\n                self._value = eval_expression(self.expression, self.resolver)\n            except SymbolNotDefined as e:\n                raise NodeError(f"{e} ({self}) is not defined in the current scope.", self.file_info) from e\n        return self._value\n')])
 M("C01", "expression-node-value-memo", NODES, '        try:\n            return eval_expression(self.expression, self.resolver)\n        except SymbolNotDefined as e:\n            raise NodeError(f"{e} ({self}) is not defined in the current scope.", self.file_info) from e\n', '        if self._value is None:\n            try:\n                self._value = eval_expression(self.expression, self.resolver)\n            except SymbolNotDefined as e:\n                raise NodeError(f"{e} ({self}) is not defined in the current scope.", self.file_info) from e\n        return self._value\n', "C01.RM", edits=[(NODES, '        self.resolver = resolver\n        self.file_info = file_info\n\n    def get_value(self) -> int:\n', '        self.resolver = resolver\n        self.file_info = file_info\n        self._value: int | None = None\n\n    def get_value(self) -> int:\n'), (NODES, '        try:\n            return eval_expression(self.expression, self.resolver)\n        except SymbolNotDefined as e:\n            raise NodeError(f"{e} ({self}) is not defined in the current scope.", self.file_info) from e\n', '        if self._value is None:\n            try:\n                self._value = eval_expression(self.expression, self.resolver)\n            except SymbolNotDefined as e:\n                raise NodeError(f"{e} ({self}) is not defined in the current scope.", self.file_info) from e\n        return self._value\n')])
+M("C01", "index-map-get-default", PST, "        addressing_mode = index_map[addressing_mode]\n", "        addressing_mode = index_map.get(addressing_mode, addressing_mode)\n", "C01.R5")
+M("C01", "index-map-checked-get-neutral", PST, "        addressing_mode = index_map[addressing_mode]\n",
+  "        if addressing_mode not in index_map:\n            raise ParserSyntaxError(f\"{addressing_mode.name} takes no index\", index_token)\n        addressing_mode = index_map.get(addressing_mode, addressing_mode)\n", neutral=True)
+M("C04", "map-number-read-as-hex", PST, "                args[map_key] = ast.literal_eval(number1.value)\n", "                args[map_key] = int(number1.value, 16)\n", "C04.R3")
+M("C04", "map-number-base-aware-int-neutral", PST, "                args[map_key] = ast.literal_eval(number1.value)\n", "                args[map_key] = int(number1.value, 0)\n", neutral=True)
+M("C06", "symbols-stored-unsigned-32", SYM, "            self.symbols[symbol] = value\n", "            self.symbols[symbol] = value & 0xFFFFFFFF\n", "C06.R6")
+M("C08", "symbols-stored-unsigned-32", SYM, "            self.symbols[symbol] = value\n", "            self.symbols[symbol] = value & 0xFFFFFFFF\n", "C08.R7")
